@@ -31,7 +31,13 @@ var solvers = []solverSpec{
 func (w *World) query(o *Obligation, model bool) string {
 	var sb strings.Builder
 	sb.WriteString("(set-option :produce-models true)\n(set-logic ALL)\n")
-	body := strings.Join(o.gen.lines[:o.NLines], "\n")
+	var bl []string
+	for i, l := range o.gen.lines[:o.NLines] {
+		if o.Tags == nil || o.Tags[o.gen.lineTag[i]] {
+			bl = append(bl, l)
+		}
+	}
+	body := strings.Join(bl, "\n")
 	tail := fmt.Sprintf("(assert %s)\n(assert (not %s))\n", o.Reach, o.Goal)
 	text := body + tail
 	for _, l := range w.basePrelude() {
